@@ -9,7 +9,11 @@
 // mycoria.New / Start / Stop on generated relay-only configurations, peering
 // over loopback TCP. Stage T: the per-module "started"/"stopped" records of
 // the real Group, worker counts per module manager and results are validated
-// by TLC against Lifecycle_Trace. Goroutines are compared before and after.
+// by TLC against Lifecycle_Trace. Goroutines are compared before and after
+// (every goroutine with a frame of the repository's packages, whether a manager
+// counts it as a worker or not). The PATH between the two routers is a
+// dimension of its own (slowpath.go): a loopback forwarder of the driver that
+// holds new connections for 0..25 s, forwards slowly, or accepts and closes.
 package main
 
 import (
@@ -95,6 +99,10 @@ func (l *instLog) take() []logRec {
 	l.recs = nil
 	return out
 }
+
+// lateWorkers: Stop() calls that returned success while a manager still counted a worker which left by itself within
+// the settle time (see stop)
+var lateWorkers atomic.Int64
 
 var constructMu sync.Mutex // slog.SetDefault is process-wide; managers capture the default when created
 
@@ -314,12 +322,17 @@ type scenario struct {
 	// for good (a router that is restarted from the same configuration while its peer keeps running)
 	fixed      bool
 	fixedPorts map[string][]int
-	universe   string
-	secret     bool
-	events     []any
-	descs      []any
-	macro      []string
-	bad        []badThing
+	// viaPort: A's connect entry names this loopback port (a forwarder of the driver, see slowpath.go) instead of
+	// B's listen port
+	viaPort  int
+	pathNote string
+	took     time.Duration
+	universe string
+	secret   bool
+	events   []any
+	descs    []any
+	macro    []string
+	bad      []badThing
 }
 
 type badThing struct{ key, what string }
@@ -416,6 +429,9 @@ func (s *scenario) construct(name string, api bool, walk []act, pos int) {
 		connectTo = 0
 		if name == "A" {
 			connectTo = s.fixedPorts["B"][0]
+			if s.viaPort != 0 {
+				connectTo = s.viaPort
+			}
 		}
 	}
 	st, desc, ports := genConfig(s.rng, idx, api, connectTo, s.dir, s.universe, s.secret, fp)
@@ -523,6 +539,28 @@ func (s *scenario) stop(name string) {
 	}
 	s.moduleEvents(name, l, "stopped", "stopmodule")
 	w := s.workerCounts(l)
+	// a worker counts from the moment its goroutine runs (mgr.Go starts the goroutine, the goroutine registers
+	// itself): one that was spawned just before Stop and is scheduled only after Stop has returned registers, finds
+	// its context cancelled / its listener closed and leaves at once. On a loaded host the count read right after
+	// Stop sees it. Same allowance as after Start: give the scheduler a moment; a worker that is really left running
+	// is still there afterwards. Noted in the evidence.
+	if ok && !p {
+		late := false
+		for deadline := time.Now().Add(3 * time.Second); time.Now().Before(deadline); w = s.workerCounts(l) {
+			zero := true
+			for _, n := range w {
+				zero = zero && n == 0
+			}
+			if zero {
+				break
+			}
+			late = true
+			time.Sleep(5 * time.Millisecond)
+		}
+		if late {
+			lateWorkers.Add(1)
+		}
+	}
 	s.events = append(s.events, map[string]any{"ev": "stopped", "inst": name, "ok": ok && !p, "workers": w})
 	if !ok {
 		s.bad = append(s.bad, badThing{"stop-not-ok", fmt.Sprintf("Stop returned false after %v (workers per slot %v, config %+v)", time.Since(t0).Round(time.Millisecond), w, l.desc)})
@@ -662,7 +700,7 @@ func main() {
 }
 
 func run(c *vf.Ctx) {
-	c.Rule("M: TLC exhaustive on Lifecycle: 2 instances, tun on/off x API listener yes/no, module-level interleaving of start/stop of both, worker churn, peering, start failures; liveness StopCompletes for one instance under fairness; 2 negative controls. R: TLC simulation walks over 2 instances x 3 cycles, executed with real mycoria.New/Start/Stop on generated relay-only configurations (universe/secret, lite, stub, isolate, 0-2 services, 0-2 friends, memory or JSON state, API listener, 1-2 listeners, connect) peering over loopback TCP. T: per-module started/stopped records, worker counts and results judged by TLC. distinct = distinct (macro sequence, configuration) pairs")
+	c.Rule("M: TLC exhaustive on Lifecycle: 2 instances, tun on/off x API listener yes/no, module-level interleaving of start/stop of both, worker churn, peering, start failures; liveness StopCompletes for one instance under fairness; 2 negative controls. R: TLC simulation walks over 2 instances x 3 cycles, executed with real mycoria.New/Start/Stop on generated relay-only configurations (universe/secret, lite, stub, isolate, 0-2 services, 0-2 friends, memory or JSON state, API listener, 1-2 listeners, connect) peering over loopback TCP; path scenarios: the connecting router reaches the other through a loopback forwarder that holds new connections (0 / 3 / 12 / 25 s), trickles, closes the first or all connections - over a path that forwards the routers must peer (late), both stop with success, no goroutine of the repository is left. T: per-module started/stopped records, worker counts and results judged by TLC. distinct = distinct (macro sequence, configuration) pairs")
 	c.Assume("the tun device cannot be created in the sandbox: only tun-disabled configurations are executed (the model also covers tun-enabled slot patterns)", "start failures are modelled but cannot be provoked in the real router with free ports")
 
 	// ---- M
@@ -761,12 +799,33 @@ func run(c *vf.Ctx) {
 			defer wg.Done()
 			sem <- struct{}{}
 			defer func() { <-sem }()
+			t0 := time.Now()
 			if p, v, stack := vf.NoPanic(func() { s.run(w) }); p {
 				s.bad = append(s.bad, badThing{"driver-or-router-panic", fmt.Sprintf("%v\n%s", v, firstLines(stack, 20))})
 			}
+			s.took = time.Since(t0)
 		}(scen[i], w)
 	}
+	// the path between the two routers as a dimension: held, slow, closing (slowpath.go); these scenarios mostly
+	// wait and run next to the others
+	pathScen := startPathScenarios(c, &wg, stateDir, uniNames)
 	wg.Wait()
+	scen = append(scen, pathScen...)
+	var pathNotes []string
+	for _, s := range pathScen {
+		pathNotes = append(pathNotes, s.pathNote)
+	}
+	c.Extra("path_scenarios", pathNotes)
+	var slowWalk, slowPath time.Duration
+	for _, s := range scen {
+		if s.pathNote == "" {
+			slowWalk = max(slowWalk, s.took)
+		} else {
+			slowPath = max(slowPath, s.took)
+		}
+	}
+	c.Logf("R: slowest walk scenario %v, slowest path scenario %v (they run side by side)", slowWalk.Round(100*time.Millisecond), slowPath.Round(100*time.Millisecond))
+	defer func() { c.Extra("stops_with_a_late_worker", lateWorkers.Load()) }()
 	// a host with a single CPU (as far as the Go runtime is concerned): both up, peer, answer, stop
 	prevProcs := runtime.GOMAXPROCS(1)
 	for k := 0; k < 2; k++ {
@@ -813,15 +872,20 @@ func run(c *vf.Ctx) {
 	}
 
 	// ---- goroutines
+	// settled = the count is back at the baseline AND no goroutine with a frame of the repository's packages is there
+	// that was not there before (whatever the count says: a goroutine of the driver that ended meanwhile must not
+	// hide one of the router that stayed; such a goroutine need not be a worker any manager counts)
 	deadline := time.Now().Add(15 * time.Second)
-	for runtime.NumGoroutine() > baseline && time.Now().Before(deadline) {
+	for (runtime.NumGoroutine() > baseline || len(repoGoroutines(diffProfiles(baseProfile, goroutineProfile()))) > 0) && time.Now().Before(deadline) {
 		time.Sleep(100 * time.Millisecond)
 	}
 	after := runtime.NumGoroutine()
 	c.Extra("goroutines_before", baseline)
 	c.Extra("goroutines_after", after)
-	if after > baseline {
-		leaked := diffProfiles(baseProfile, goroutineProfile())
+	if leaked := diffProfiles(baseProfile, goroutineProfile()); after > baseline || len(repoGoroutines(leaked)) > 0 {
+		if after <= baseline {
+			leaked = repoGoroutines(leaked)
+		}
 		for _, lk := range leaked {
 			c.Violation("goroutine-leak/"+lk.top, fmt.Sprintf("%d goroutine(s) left after all instances were stopped (%d before, %d after %d construct/start/stop cycles): %s", lk.n, baseline, after, len(scen), lk.stack), map[string]any{"stack": lk.stack, "count": lk.n}, nil)
 		}
@@ -879,8 +943,15 @@ func goroutineProfile() map[string]int {
 	out := map[string]int{}
 	for _, blk := range strings.Split(buf.String(), "\n\n") {
 		lines := strings.Split(strings.TrimSpace(blk), "\n")
+		// the profile's header line sits on top of its first block - the block of the MOST numerous stack
+		if len(lines) > 0 && strings.HasPrefix(lines[0], "goroutine profile:") {
+			lines = lines[1:]
+		}
 		if len(lines) < 2 || !strings.Contains(lines[0], " @ ") {
 			continue
+		}
+		if strings.Contains(blk, "main.goroutineProfile") {
+			continue // the goroutine that takes the profile: its stack differs from call site to call site
 		}
 		var n int
 		_, _ = fmt.Sscanf(lines[0], "%d @", &n)
@@ -904,6 +975,9 @@ func diffProfiles(before, after map[string]int) []leak {
 			for _, f := range strings.Split(k, " < ") {
 				if strings.Contains(f, "mycoria/") {
 					top = f
+					if i := strings.LastIndex(top, "+0x"); i > 0 {
+						top = top[:i] // without the offset: one key per function
+					}
 					break
 				}
 			}
